@@ -1505,10 +1505,10 @@ def c02_first(ctx):
                 probs.append('the tested result %s does not come from a short-circuit iterator terminal' % t_str(x)[:100])
             else:
                 names, root = I.spine(x[2][0])
-                badad = [y for y in names if y not in ITER_ORDER_PRESERVING_LAZY]
+                badad = [y for y in names if y not in ITER_ELEMENT_FAITHFUL]
                 rooted = is_stream_root(root) or any(root in value_terms(ctx, p) for p in pull_ids(root))
                 if badad:
-                    probs.append('the match is searched through `%s`, which is not in-order / lazy' % badad[0])
+                    probs.append('the match is searched through `%s`, which can discard pulled elements unevaluated or is not in-order / lazy' % badad[0])
                 if not rooted:
                     probs.append('the searched chain is not rooted at the pulled elements: %s' % t_str(root)[:80])
             # what is returned on the match edge is the tested value itself
@@ -1612,7 +1612,7 @@ def c03_thread(ctx):
             if x[2][1] != R:
                 return 'elements are combined with %s, not with the user\'s reduce operator' % t_str(x[2][1])[:80]
             names, root = I.spine(x[2][0])
-            bad = [y for y in names if y not in ITER_ORDER_PRESERVING_LAZY]
+            bad = [y for y in names if y not in ITER_ELEMENT_FAITHFUL]
             if bad:
                 return 'the chunk is reduced through `%s`, which can drop or reorder elements' % bad[0]
             if not (is_stream_root(root) or pull_ids(root)):
@@ -1658,7 +1658,7 @@ def c04_thread(ctx):
             if not (x[0] == 'call' and is_iter_method(x, ('count',))):
                 return 'per-pull value %s is not an Iterator::count over the pulled elements' % t_str(x)[:100]
             names, root = I.spine(x[2][0])
-            bad = [y for y in names if y not in ITER_ORDER_PRESERVING_LAZY]
+            bad = [y for y in names if y not in ITER_ELEMENT_FAITHFUL]
             if bad:
                 return 'the chunk is counted through `%s`, which can drop elements' % bad[0]
             if not (is_stream_root(root) or pull_ids(root)):
@@ -1689,14 +1689,17 @@ def c04_thread(ctx):
             if u and fbs.get(u, {}).get('output') == 'bool':
                 sw = switch_of_call(ctx, tb, bb)
                 if sw:
-                    filt_sw.append(sw)
+                    filt_sw.append(sw + (cfg.innermost_loop(bb),))
         for bb, blk in tb.blocks.items():
             for st in blk['stmts']:
                 rv = st['rv']
                 one_inc = rv['r'] == 'bin' and rv['op'].startswith('Add') and rv['b'].get('k') == 'int' and rv['b'].get('v') == '1'
                 one_init = rv['r'] == 'use' and rv['o'].get('k') == 'int' and rv['o'].get('v') == '1' and tb.locals[st['lhs']['l']]['ty'] == 'usize' and tb.locals[st['lhs']['l']].get('name')
                 if (one_inc or one_init) and bb in r.visited:
-                    ok = any(sw[1] != sw[2] and cfg.edge_dominates(sw[0], sw[1], bb) for sw in filt_sw)
+                    # the guarding filter evaluation must belong to the same element: the counting block is reached from
+                    # the filter's true edge without stepping to another element in between
+                    steps = {x for x, t in tb.calls() if is_step_call(t)}
+                    ok = any(sw[1] != sw[2] and cfg.edge_dominates(sw[0], sw[1], bb) and bb in cfg.reach(sw[1], avoid=steps - {bb}) for sw in filt_sw)
                     out.inst('C04-THREAD/%s/survivor-%s' % (key_of(tb), 'inc' if one_inc else 'init'), ok, 'counting 1 on the survivor edge')
                     if not ok:
                         out.fail('C04-THREAD/%s/survivor' % key_of(tb), '%s counts 1 on a path that is not guarded by the user filter accepting the element' % key_of(tb), tb.where(st.get('line')))
